@@ -190,8 +190,8 @@ def judge_midrun(run, scn, meta, res, section='mid-run-state'):
 
 def all_users(run, thorough):
     """--all-users (trash-list, trash-empty): the directories $topdir/.Trash/$uid of the OTHER users of the password database are
-    governed by the same rules - under an insecure $topdir/.Trash none of them is listed or purged.  (--all-users is not in the Coq
-    model: oracle only.)"""
+    governed by the same rules - under an insecure $topdir/.Trash none of them is listed or purged.  (--all-users is in the Coq
+    model since Scan.scan_all_users: these runs go through the trace tie and the world tie as well, and the theorems of C08 cover them.)"""
     import itertools
     scns, metas = [], []
     for state, cmd in itertools.product(['sticky', 'nonsticky', 'link_sticky', 'link_nonsticky'], ['list', 'empty', 'empty_days']):
@@ -210,11 +210,9 @@ def all_users(run, thorough):
             step['env'] = {'TRASH_DATE': '2024-01-01T00:00:00'}
         scns.append({'tree': tree, 'mounts': ['/vol1'], 'cwd': '/', 'uid': 1000, 'env': {'HOME': '/home/u', 'TRASH_VOLUMES': '/:/vol1'}, 'steps': [step]})
         metas.append({'all_users': True, 'state': state, 'cmd': cmd, 'real': real})
-    for scn, meta, res in zip(scns, metas, sandbox.execute_many(scns)):
-        if res.get('harness_error') or not res.get('steps'):
-            run.fail('harness', 'sandbox failure', {'error': res.get('harness_error'), 'scenario': scn})
-            continue
-        judge_all_users(run, scn, meta, res)
+    by_id = {id(s): m for s, m in zip(scns, metas)}
+    for scn, res in engine.run_all(run, 'all-users-tie', scns):
+        judge_all_users(run, scn, by_id[id(scn)], res)
 
 
 def judge_all_users(run, scn, meta, res, section='all-users'):
